@@ -295,6 +295,11 @@ class _Subst(ast.NodeTransformer):
   def visit_arg(self, node):
     return node
 
+  def visit_ExceptHandler(self, node: ast.ExceptHandler):
+    if node.name and node.name in self.rename:
+      node.name = self.rename[node.name]
+    return self.generic_visit(node)
+
   def visit_Lambda(self, node: ast.Lambda):
     # the lambda's own parameters shadow whatever is being substituted / renamed
     own = {a.arg for a in node.args.args + node.args.kwonlyargs + node.args.posonlyargs}
